@@ -13,6 +13,7 @@ RULE = ("bounded-exhaustive enumeration: a set of canonical rationals built from
         "mul_2exp/div_2exp for shifts 0..200 across limb boundaries, in place and separate; canonicalize on every non-canonical (n,d) pair of a "
         "grid including negative denominators; set_z/si/ui/d/f, set_num/den, get_num/den, swap. Oracle: fractions.Fraction (its normal form is the "
         "canonical form). distinct_nontrivial = distinct (function, alias mode, sign/size classes of operands and result) tuples.")
+RULE = RULE + (" " + 'Later additions: mpq_canonicalize over a family of common factors (multi-limb with low limb 1/2/3/0); integer arguments that are the numerator or denominator of the rational being written.')
 ASSUMPTIONS = ["fractions.Fraction is the reference model; its normal form (positive denominator, lowest terms, 0/1) is the canonical form"]
 BUDGET = {"quick": 300, "thorough": 1800}
 M, H, B = al.M, al.H, al.B
